@@ -508,4 +508,6 @@ func Run(c *hx.Ctx) {
 	ctxCases(c)
 	// decoded content of every frame vs the same frame decoded alone (pkt.go)
 	pktCases(c)
+	// HTTP/2: what the stream layer delivers does not alias the read buffer (h2own.go)
+	h2ownCases(c)
 }
